@@ -392,7 +392,10 @@ def sx_contains(a, b):
     if _ri(a, (SymInt, SymBool)):
         if _ri(b, (dict, list, tuple, set, frozenset)) or type(b).__name__ in ("dict_keys", "dict_values"):
             for k in b:
-                if _ri(k, (int, SymInt, SymBool)) and a == k:
+                if k is None or _ri(k, (str, bytes, bytearray, float)):
+                    continue
+                # ints, symbolic ints and objects with their own == against ints (SpsdkEnum members)
+                if a == k:
                     return True
             return False
         if _ri(b, range):
@@ -436,6 +439,9 @@ def sx_getitem(b, a):
             if _ri(k, (bytes, SymBytes)) and a == k:
                 return b[k]
         raise KeyError(SENTINEL)
+    if _ri(a, slice) and _ri(b, (bytes, bytearray, list, tuple, str)) and any(_issym(x) for x in (a.start, a.stop)):
+        from .sbytes import _idx
+        return b[_idx(a, len(b))]
     return b[a]
 
 
@@ -722,7 +728,7 @@ SHIM.update(
     isinstance=sx_isinstance, issubclass=sx_issubclass, int=sx_int, bool=sx_bool, bytes=sx_bytes,
     bytearray=sx_bytearray, memoryview=sx_memoryview, len=sx_len, abs=sx_abs, max=sx_max, min=sx_min,
     sum=sx_sum, divmod=sx_divmod, pow=sx_pow, round=sx_round, hex=sx_hex, bin=sx_bin, oct=sx_oct,
-    sorted=sx_sorted, set=sx_set, sx_truth_=sx_truth, sx_contains_=sx_contains, sx_getitem_=sx_getitem, sx_join_=sx_join,
+    sorted=sx_sorted, set=sx_set, sx_truth_=sx_truth, sx_concrete_=lambda x: x.__index__() if _issym(x) else x, sx_contains_=sx_contains, sx_getitem_=sx_getitem, sx_join_=sx_join,
     sx_real_int_=int, sx_real_str_=str, sx_real_bytes_=bytes, sx_real_float_=float, sx_real_bool_=bool,
     sx_real_bytearray_=bytearray,
 )
